@@ -2145,3 +2145,97 @@ mod tests {
         }
     }
 }
+
+/// Read-only projection of one active query (verification hook).
+#[cfg(litep2p_verif)]
+#[derive(Debug, Clone, Default)]
+pub struct VerifQueryState {
+    /// `find` (FIND_NODE / PUT_VALUE / ADD_PROVIDER lookup), `get`, `prov`, `track`, `many`.
+    pub kind: &'static str,
+    /// Peers with an outstanding request (for `track`: peers not yet reported).
+    pub pending: Vec<PeerId>,
+    /// Peers that answered or failed.
+    pub queried: Vec<PeerId>,
+    /// Candidates, closest first.
+    pub candidates: Vec<PeerId>,
+    /// Best responders, closest first (`find`).
+    pub responses: Vec<PeerId>,
+    /// Pending responses counted towards the parallelism factor (`find`).
+    pub pending_responses: usize,
+    /// Peer timeout in milliseconds (`find`).
+    pub peer_timeout_ms: u64,
+    /// `found_records` (`get`).
+    pub found_records: usize,
+    /// Peers whose records wait to be reported as partial results (`get`).
+    pub queued_records: Vec<PeerId>,
+    /// Providers found so far (`prov`).
+    pub found_providers: Vec<PeerId>,
+    /// Successful sends / successes needed (`track`).
+    pub succeeded: usize,
+    /// Successes needed (`track`).
+    pub needed: usize,
+}
+
+#[cfg(litep2p_verif)]
+impl QueryEngine {
+    /// Number of active queries (verification hook).
+    pub fn verif_num_queries(&self) -> usize {
+        self.queries.len()
+    }
+
+    /// Projection of the context of `query`, `None` once it has been removed (verification hook).
+    pub fn verif_query_state(&self, query: QueryId) -> Option<VerifQueryState> {
+        fn find<T: Clone + Into<Vec<u8>>>(context: &FindNodeContext<T>) -> VerifQueryState {
+            VerifQueryState {
+                kind: "find",
+                pending: context.pending.keys().copied().collect(),
+                queried: context.queried.iter().copied().collect(),
+                candidates: context.candidates.values().map(|peer| peer.peer).collect(),
+                responses: context.responses.values().map(|peer| peer.peer).collect(),
+                pending_responses: context.verif_pending_responses(),
+                peer_timeout_ms: context.verif_peer_timeout().as_millis() as u64,
+                ..Default::default()
+            }
+        }
+        fn track(context: &PutToTargetPeersContext) -> VerifQueryState {
+            let (pending, succeeded, needed) = context.verif_state();
+            VerifQueryState {
+                kind: "track",
+                pending,
+                succeeded,
+                needed,
+                ..Default::default()
+            }
+        }
+
+        Some(match self.queries.get(&query)? {
+            QueryType::FindNode { context } => find(context),
+            QueryType::PutRecord { context, .. } => find(context),
+            QueryType::AddProvider { context, .. } => find(context),
+            QueryType::PutRecordToPeers { context, .. } => VerifQueryState {
+                kind: "many",
+                responses: context.peers_to_report.iter().map(|peer| peer.peer).collect(),
+                ..Default::default()
+            },
+            QueryType::PutRecordToFoundNodes { context } => track(context),
+            QueryType::AddProviderToFoundNodes { context } => track(context),
+            QueryType::GetRecord { context } => VerifQueryState {
+                kind: "get",
+                pending: context.pending.keys().copied().collect(),
+                queried: context.queried.iter().copied().collect(),
+                candidates: context.candidates.values().map(|peer| peer.peer).collect(),
+                found_records: context.found_records,
+                queued_records: context.records.iter().map(|record| record.peer).collect(),
+                ..Default::default()
+            },
+            QueryType::GetProviders { context } => VerifQueryState {
+                kind: "prov",
+                pending: context.pending.keys().copied().collect(),
+                queried: context.queried.iter().copied().collect(),
+                candidates: context.candidates.values().map(|peer| peer.peer).collect(),
+                found_providers: context.found_providers.iter().map(|peer| peer.peer).collect(),
+                ..Default::default()
+            },
+        })
+    }
+}
